@@ -115,6 +115,35 @@ def c08_mixed_stream(seed, records):
     return {"violates": False, "cases": cases}
 
 
+def c08_reader(expr="not (r.pid == 5)", engine="Selector"):
+    from flow.record import RecordDescriptor
+    from flow.record import selector as S
+    from flow.record.stream import RecordStreamReader, RecordStreamWriter
+
+    MISSING = object()
+    refs = {
+        "r.pid == 5": lambda f: f.get("pid", MISSING) == 5,
+        "not (r.pid == 5)": lambda f: not (f.get("pid", MISSING) == 5),
+        "not (r.pid >= 5)": lambda f: not ("pid" in f and f["pid"] >= 5),
+        "r.nm == 'y' or not (r.pid == 5)": lambda f: f.get("nm") == "y" or not (f.get("pid", MISSING) == 5),
+        "not (r.pid in (5, 6)) and not (r.nm == 'y')": lambda f: not (f.get("pid", MISSING) in (5, 6)) and not (f.get("nm", MISSING) == "y"),
+        "not has_field(r, 'pid')": lambda f: "pid" not in f,
+    }
+    types = {"c08/event": [("string", "nm")], "c08/event2": [("string", "nm"), ("varint", "pid")], "c08/other": [("varint", "pid")], "c08/note": [("string", "text")]}
+    rows = [("c08/event", {"nm": "x"}), ("c08/event2", {"nm": "x", "pid": 5}), ("c08/other", {"pid": 7}), ("c08/event", {"nm": "y"}), ("c08/note", {"text": "t"}), ("c08/event2", {"nm": "y", "pid": 6})]
+    buf = io.BytesIO()
+    w = RecordStreamWriter(buf)
+    for t, f in rows:
+        w.write(RecordDescriptor(t, types[t])(**f))
+    w.flush()
+    try:
+        got = [(r._desc.name, {k: getattr(r, k) for k in r.__slots__ if not k.startswith("_")}) for r in RecordStreamReader(io.BytesIO(buf.getvalue()), selector=getattr(S, engine)(expr))]
+    except Exception as e:
+        return {"violates": True, "detail": f"reading with selector {expr!r} raised {type(e).__name__}: {e}"}
+    want = [(t, f) for t, f in rows if refs[expr](f)]
+    return {"violates": got != want, "detail": None if got == want else f"RecordStreamReader(selector={expr!r}) yields {got}, the condition holds for {want}"}
+
+
 def c08_mixed(expr="r.pid == 5", engine="Selector"):
     from flow.record import RecordDescriptor
     from flow.record import selector as S
@@ -134,4 +163,4 @@ def c08_mixed(expr="r.pid == 5", engine="Selector"):
     return {"violates": out != want, "got": out, "expected": want}
 
 
-CALLS = {"c08_mixed": c08_mixed, "c08_eval": c08_eval, "c08_select": c08_select, "c08_ctx": c08_ctx, "c08_helper": c08_helper, "c08_helper_regex": c08_helper_regex, "c08_mixed_stream": c08_mixed_stream}
+CALLS = {"c08_reader": c08_reader, "c08_mixed": c08_mixed, "c08_eval": c08_eval, "c08_select": c08_select, "c08_ctx": c08_ctx, "c08_helper": c08_helper, "c08_helper_regex": c08_helper_regex, "c08_mixed_stream": c08_mixed_stream}
